@@ -43,10 +43,11 @@ RULE = ("generated variants of an 8-class model with callbacks at every placemen
         "non-trivial = at least one callback site; distinct by ast.dump")
 
 PLACEMENTS = ["itcls", "collcls", "trackcls", "trackpt", "jetcls", "jetpt", "jettrks", "evcls", "evjets", "fproc", "pcb", "subx",
-              "partcls", "partpt", "lepcls", "lepeta", "lepiso", "mucls"]
+              "partcls", "partpt", "lepcls", "lepeta", "lepiso", "mucls", "absproc", "stale"]
 
 
 def gen_desc(r):
+    UFN = r.choice(["abs", "len"])
     cbs = {}
     n = 0
     on = {p: (r.random() < 0.6) for p in PLACEMENTS}
@@ -95,8 +96,13 @@ def gen_desc(r):
                          {"name": "CTrks", "ret": "TrkColl[Track]"}, {"name": "ItJets", "ret": "JetIt[Jet]"}, {"name": "LeadLep", "ret": "Lepton"},
                          {"name": "LeadMu", "ret": "Muon"}, {"name": "Parts", "ret": "Iterable[Particle]"}]},
         ],
-        "functions": [{"name": "myf", "params": [("a", None)], "ret": "float", "proc": g("fproc")},
-                      {"name": "plainf", "params": [("a", None)], "ret": "float"}],
+        # registration history: a name registered again (a notebook cell run twice) belongs to the LAST registration, so
+        # the processor of the first one ("stale") never fires; a user function named like the pre-registered
+        # pass-throughs abs / len replaces them, processor included
+        "functions": ([{"name": "myf", "params": [("a", None)], "ret": "float", "proc": g("stale")}] if r.random() < 0.6 else []) +
+                     [{"name": "myf", "params": [("a", None)], "ret": "float", "proc": g("fproc")},
+                      {"name": "plainf", "params": [("a", None)], "ret": "float"},
+                      {"name": UFN, "params": [("x", None)], "ret": "float", "proc": g("absproc")}],
         "callbacks": cbs,
     }
     return desc
@@ -127,6 +133,7 @@ class Q:
         self.r = r
         self.m = model
         self.cbs = desc["callbacks"]
+        self.ufn = desc["functions"][-1]["name"]        # the user's own abs / len
         self.sites = 0
         self.depth = 0
         self.kind = "iter"
@@ -159,6 +166,14 @@ class Q:
             site = self.fire(mcb, site, ev)
         return w, site, res
 
+    def fn_site(self, k, a, ax, ev):
+        """a registered function applied to [a]: its processor - that of the last registration of the name - fires"""
+        name, cb = ("plainf", None) if k == "plain" else (self.ufn, "absproc") if self.r.random() < 0.3 else ("myf", "fproc")
+        w, site = call(N(name), [a]), call(N(name), [ax])
+        if cb is not None and cb in self.cbs:
+            site = self.fire(cb, site, ev)
+        return w, site
+
     def scalar(self, cls, v, d, ev):
         """a float-valued expression over variable v : cls"""
         self.depth = max(self.depth, d)
@@ -177,10 +192,7 @@ class Q:
                 return w, x
             if k == "fn":
                 a, ax = self.scalar(cls, v, d, ev)
-                w, site = call(N("myf"), [a]), call(N("myf"), [ax])
-                if "fproc" in self.cbs:
-                    site = self.fire("fproc", site, ev)
-                return w, site
+                return self.fn_site("fn", a, ax, ev)
             a, ax = self.scalar(cls, v, d, ev)
             b, bx = self.scalar(cls, v, d, ev)
             return gen.binop(ast.Add, a, b), gen.binop(ast.Add, ax, bx)
@@ -218,11 +230,7 @@ class Q:
             return w, x
         if k in ("fn", "plain"):
             a, ax = self.scalar(cls, v, d, ev)
-            name = "myf" if k == "fn" else "plainf"
-            w, site = call(N(name), [a]), call(N(name), [ax])
-            if k == "fn" and "fproc" in self.cbs:
-                site = self.fire("fproc", site, ev)
-            return w, site
+            return self.fn_site(k, a, ax, ev)
         if k == "binop":
             a, ax = self.scalar(cls, v, d, ev)
             b, bx = self.scalar(cls, v, d, ev)
@@ -307,7 +315,7 @@ class Q:
         return tc.op_call(r, coll, "Select", lam(nv, b)), self.cfire(kind, call(A(collx, "Select"), [lam(nv, bx)]), ev)
 
 
-FUNC_BODIES = {"myf": "a ** 0.5", "plainf": "a * 2.0 + 1.0"}
+FUNC_BODIES = {"myf": "a ** 0.5", "plainf": "a * 2.0 + 1.0", "abs": "x * 1.5", "len": "x + 0.5"}
 
 
 def uses_function(q) -> bool:
